@@ -150,9 +150,28 @@ def strip_comments(src):
     return "".join(out)
 
 
-def grep_forbidden():
+def dep_closure(root):
+    """transitive `From AV Require ...` closure of a .v file (paths relative to coq/)"""
+    seen, todo = [], [root]
+    while todo:
+        f = todo.pop()
+        if f in seen or not os.path.exists(os.path.join(COQDIR, f)):
+            continue
+        seen.append(f)
+        src = strip_comments(open(os.path.join(COQDIR, f)).read())
+        for m in re.finditer(r"From\s+AV\s+Require\s+(?:Import\s+|Export\s+)?(.*?)\.(?=\s|$)", src, flags=re.S):
+            for mod in m.group(1).split():
+                todo.append(mod.replace(".", "/") + ".v")
+        for m in re.finditer(r"(?<!AV\s)Require\s+(?:Import\s+|Export\s+)?(.*?)\.(?=\s|$)", src, flags=re.S):
+            for mod in m.group(1).split():
+                if mod.startswith("AV."):
+                    todo.append(mod[3:].replace(".", "/") + ".v")
+    return seen
+
+
+def grep_forbidden(files=None):
     bad = []
-    for f in v_files():
+    for f in (files if files is not None else v_files()):
         src = strip_comments(open(os.path.join(COQDIR, f)).read())
         for m in FORBIDDEN.finditer(src):
             bad.append("%s: %s" % (f, m.group(0)))
@@ -164,7 +183,7 @@ def check_obligations(prop, theorems):
     t0 = time.time()
     ok, log, cmd = make(["Properties/%s.vo" % prop])
     res = {"checker_cmd": "cd coq && %s && coqc -Q . AV Properties/%s.v" % (cmd, prop),
-           "theorems": {}, "ok": ok, "forbidden": grep_forbidden(), "log_tail": log[-2000:] if not ok else ""}
+           "theorems": {}, "ok": ok, "forbidden": grep_forbidden(dep_closure("Properties/%s.v" % prop)), "log_tail": log[-2000:] if not ok else ""}
     if not ok:
         res["obligations"] = len(theorems)
         res["discharged"] = 0
@@ -205,6 +224,7 @@ def check_obligations(prop, theorems):
     if res["forbidden"]:
         failed.append("forbidden:" + ";".join(res["forbidden"]))
     names = sorted(set(printed) | set(theorems))
+    res["files"] = dep_closure("Properties/%s.v" % prop)
     res["obligations"] = len(names)
     res["discharged"] = len([n for n in names if res["theorems"].get(n) == "closed"])
     res["failed"] = failed
@@ -236,6 +256,8 @@ def _run_one(args):
     signal.alarm(tmo)
     try:
         r = _PLUGIN.run_case(human)
+        if r is None:
+            r = {"skip": True}
         r["hang"] = False
     except _Timeout:
         r = {"hang": True}
@@ -388,7 +410,7 @@ def run_check(plugin_mod, tier, seed, replay=None):
     recs = run_impl(plugin_mod, humans, getattr(pl, "CASE_TIMEOUT", 20))
     harness_errors = [r for r in recs if r.get("harness_error")]
     hangs = [r for r in recs if r.get("hang")]
-    good = [r for r in recs if not r.get("hang") and not r.get("harness_error")]
+    good = [r for r in recs if not r.get("hang") and not r.get("harness_error") and not r.get("skip")]
     coq_error = None
     corr_bad = dec_bad = set()
     incl = set()
@@ -451,7 +473,7 @@ def run_check(plugin_mod, tier, seed, replay=None):
                 sh = list(pl.search(tier, seed))
                 if sh:
                     srecs = [r for r in run_impl(plugin_mod, sh, getattr(pl, "CASE_TIMEOUT", 20))]
-                    sgood = [r for r in srecs if not r.get("hang") and not r.get("harness_error")]
+                    sgood = [r for r in srecs if not r.get("hang") and not r.get("harness_error") and not r.get("skip")]
                     shang = [r for r in srecs if r.get("hang")]
                     try:
                         _, sdb, _ = eval_cases(pl.COQ, [(r["cin"], r["cout"]) for r in sgood])
@@ -500,7 +522,8 @@ def run_check(plugin_mod, tier, seed, replay=None):
             "checker_cmd": ob["checker_cmd"],
             "trusted_base": GLOBAL_TRUSTED + list(pl.TRUSTED),
             "theorems": ob["theorems"],
-            "evaluations": len(recs),
+            "evaluations": len(good) + len(hangs),
+            "skipped_inputs_outside_domain": len([r for r in recs if r.get("skip")]),
             "distinct_nontrivial": len(nontriv),
             "rule": pl.RULE,
             "samples": samples,
